@@ -8,6 +8,7 @@
 //! assume: fix-up: the HTLC output indices are strictly ascending with the HTLC order (they were initialised to the positions in the sorted list) and below 0xffff_0000
 //! trusted: assume_specification for <[T]>::swap (std: exchanges the two elements), Ordering::then and Ordering::is_gt (std definitions), Vec::with_capacity is vstd's
 //! trusted: R6: `for htlc in nondust_htlcs { B }` over a `&Vec` becomes `for htlc in nondust_htlcs.iter() { B }` (IntoIterator for &Vec is iter()); R10: `&nondust_htlcs` where nondust_htlcs is already a `&mut Vec` is written `&*nondust_htlcs` (the deref coercion rustc inserts)
+//! plemma: C01 lemma_shared_anchor_conserves: with a shared (P2A) anchor the non-HTLC outputs BOLT 3 prescribes, plus the HTLC sum, never exceed the channel value
 use vstd::prelude::*;
 macro_rules! walk_is_reversed { () => { false }; (. rev ( )) => { true }; }
 verus! {
@@ -108,15 +109,44 @@ impl DirectedChannelTransactionParameters {
     #[verifier::external_body] pub fn contest_delay(&self) -> (r: u16) ensures r == self.delay { self.delay }
     #[verifier::external_body] pub fn channel_value_satoshis(&self) -> (r: u64) ensures r == self.value { self.value }
 }
-// BOLT 3: the non-HTLC outputs of a commitment transaction, in the order the builder hands them over
+// BOLT 3: the non-HTLC outputs of a commitment transaction (the contract compares multisets: the order in which the builder hands them to
+// the sorting insertion is not part of the property)
+pub open spec fn nh_to_remote(to_c: u64, p: DirectedChannelTransactionParameters) -> Seq<TxOut> {
+    if to_c > 0 { seq![TxOut { script_pubkey: ScriptBuf(if p.ct.anchors { p2wsh_of(countersigner_anchor_script(p.cs.payment_point.0)) } else { p2wpkh_of(hash160_spec(ser33(p.cs.payment_point.0))) }), value: Amount(to_c) }] } else { Seq::empty() } }
+pub open spec fn nh_to_local(keys: TxCreationKeys, to_b: u64, p: DirectedChannelTransactionParameters) -> Seq<TxOut> {
+    if to_b > 0 { seq![TxOut { script_pubkey: ScriptBuf(p2wsh_of(revokeable_script(keys.revocation_key.0, p.delay, keys.broadcaster_delayed_payment_key.0))), value: Amount(to_b) }] } else { Seq::empty() } }
+pub open spec fn nh_anchor_b(to_b: u64, p: DirectedChannelTransactionParameters, htlc_sum: u64) -> Seq<TxOut> {
+    if p.ct.anchors && (to_b > 0 || htlc_sum != 0) { seq![TxOut { script_pubkey: ScriptBuf(p2wsh_of(keyed_anchor_script(p.br.funding_pubkey.0))), value: Amount(330) }] } else { Seq::empty() } }
+pub open spec fn nh_anchor_c(to_c: u64, p: DirectedChannelTransactionParameters, htlc_sum: u64) -> Seq<TxOut> {
+    if p.ct.anchors && (to_c > 0 || htlc_sum != 0) { seq![TxOut { script_pubkey: ScriptBuf(p2wsh_of(keyed_anchor_script(p.cs.funding_pubkey.0))), value: Amount(330) }] } else { Seq::empty() } }
+pub open spec fn p2a_value(to_b: u64, to_c: u64, p: DirectedChannelTransactionParameters, htlc_sum: u64) -> u64 { if p.value - htlc_sum - to_b - to_c < 240 { (p.value - htlc_sum - to_b - to_c) as u64 } else { 240u64 } }
+pub open spec fn nh_p2a(to_b: u64, to_c: u64, p: DirectedChannelTransactionParameters, htlc_sum: u64) -> Seq<TxOut> {
+    if p.ct.zfc { seq![TxOut { script_pubkey: ScriptBuf(shared_anchor_spk()), value: Amount(p2a_value(to_b, to_c, p, htlc_sum)) }] } else { Seq::empty() } }
 pub open spec fn non_htlc_outputs(keys: TxCreationKeys, to_b: u64, to_c: u64, p: DirectedChannelTransactionParameters, htlc_sum: u64) -> Seq<TxOut> {
-    let s0 = Seq::<TxOut>::empty();
-    let s1 = if to_c > 0 { s0.push(TxOut { script_pubkey: ScriptBuf(if p.ct.anchors { p2wsh_of(countersigner_anchor_script(p.cs.payment_point.0)) } else { p2wpkh_of(hash160_spec(ser33(p.cs.payment_point.0))) }), value: Amount(to_c) }) } else { s0 };
-    let s2 = if to_b > 0 { s1.push(TxOut { script_pubkey: ScriptBuf(p2wsh_of(revokeable_script(keys.revocation_key.0, p.delay, keys.broadcaster_delayed_payment_key.0))), value: Amount(to_b) }) } else { s1 };
-    let s3 = if p.ct.anchors && (to_b > 0 || htlc_sum != 0) { s2.push(TxOut { script_pubkey: ScriptBuf(p2wsh_of(keyed_anchor_script(p.br.funding_pubkey.0))), value: Amount(330) }) } else { s2 };
-    let s4 = if p.ct.anchors && (to_c > 0 || htlc_sum != 0) { s3.push(TxOut { script_pubkey: ScriptBuf(p2wsh_of(keyed_anchor_script(p.cs.funding_pubkey.0))), value: Amount(330) }) } else { s3 };
-    let s5 = if p.ct.zfc { s4.push(TxOut { script_pubkey: ScriptBuf(shared_anchor_spk()), value: Amount(if p.value - htlc_sum - to_b - to_c < 240 { (p.value - htlc_sum - to_b - to_c) as u64 } else { 240u64 }) }) } else { s4 };
-    s5
+    (((nh_to_remote(to_c, p) + nh_to_local(keys, to_b, p)) + nh_anchor_b(to_b, p, htlc_sum)) + nh_anchor_c(to_c, p, htlc_sum)) + nh_p2a(to_b, to_c, p, htlc_sum)
+}
+pub proof fn lemma_non_htlc_multiset(keys: TxCreationKeys, to_b: u64, to_c: u64, p: DirectedChannelTransactionParameters, htlc_sum: u64)
+    ensures non_htlc_outputs(keys, to_b, to_c, p, htlc_sum).to_multiset() =~= nh_to_remote(to_c, p).to_multiset().add(nh_to_local(keys, to_b, p).to_multiset())
+        .add(nh_anchor_b(to_b, p, htlc_sum).to_multiset()).add(nh_anchor_c(to_c, p, htlc_sum).to_multiset()).add(nh_p2a(to_b, to_c, p, htlc_sum).to_multiset())
+{
+    let a = nh_to_remote(to_c, p); let b = nh_to_local(keys, to_b, p); let c = nh_anchor_b(to_b, p, htlc_sum); let d = nh_anchor_c(to_c, p, htlc_sum); let e = nh_p2a(to_b, to_c, p, htlc_sum);
+    vstd::seq_lib::lemma_multiset_commutative(a, b);
+    vstd::seq_lib::lemma_multiset_commutative(a + b, c);
+    vstd::seq_lib::lemma_multiset_commutative((a + b) + c, d);
+    vstd::seq_lib::lemma_multiset_commutative(((a + b) + c) + d, e);
+}
+// with a shared anchor (and no keyed anchors) the prescribed outputs never add up to more than the channel value
+pub proof fn lemma_shared_anchor_conserves(keys: TxCreationKeys, to_b: u64, to_c: u64, p: DirectedChannelTransactionParameters, htlc_sum: u64)
+    requires p.ct.zfc, !p.ct.anchors, p.value >= htlc_sum + to_b + to_c
+    ensures htlc_sum + total_value(non_htlc_outputs(keys, to_b, to_c, p, htlc_sum)) <= p.value
+{
+    let a = nh_to_remote(to_c, p); let b = nh_to_local(keys, to_b, p); let e = nh_p2a(to_b, to_c, p, htlc_sum);
+    let z = Seq::<TxOut>::empty();
+    assert(total_value(z) == 0);
+    assert(non_htlc_outputs(keys, to_b, to_c, p, htlc_sum) =~= (a + b) + e);
+    if to_c > 0 { lemma_total_push(z, a[0]); assert(z.push(a[0]) =~= a); }
+    if to_b > 0 { lemma_total_push(a, b[0]); assert(a.push(b[0]) =~= a + b); } else { assert(a + b =~= a); }
+    lemma_total_push(a + b, e[0]); assert((a + b).push(e[0]) =~= (a + b) + e);
 }
 pub open spec fn total_value(s: Seq<TxOut>) -> int decreases s.len() { if s.len() == 0 { 0 } else { total_value(s.drop_last()) + s.last().value.0 } }
 pub proof fn lemma_total_push(s: Seq<TxOut>, o: TxOut) ensures total_value(s.push(o)) == total_value(s) + o.value.0
@@ -253,21 +283,10 @@ impl CommitmentTransaction {
     old(out)@.len() == 0,
     channel_parameters.ct.zfc ==> channel_parameters.value >= nondust_htlcs_value_sum_sat.0 + to_broadcaster_value_sat.0 + to_countersignatory_value_sat.0,
 //@ensures P C01 the-non-htlc-outputs-are-the-two-balances-that-are-non-zero-the-anchors-bolt3-prescribes-and-nothing-else
-    final(out)@ =~= non_htlc_outputs(*keys, to_broadcaster_value_sat.0, to_countersignatory_value_sat.0, *channel_parameters, nondust_htlcs_value_sum_sat.0),
-//@ensures P C01 with-a-shared-anchor-the-outputs-never-add-up-to-more-than-the-channel-value
-    channel_parameters.ct.zfc && !channel_parameters.ct.anchors ==> nondust_htlcs_value_sum_sat.0 + total_value(final(out)@) <= channel_parameters.value,
-//@at body_end
-    proof {
-        let e = Seq::<TxOut>::empty();
-        assert(total_value(e) == 0);
-        let keys_ = *keys; let p_ = *channel_parameters;
-        let to_b = to_broadcaster_value_sat.0; let to_c = to_countersignatory_value_sat.0; let hs = nondust_htlcs_value_sum_sat.0;
-        let s1 = if to_c > 0 { e.push(TxOut { script_pubkey: ScriptBuf(if p_.ct.anchors { p2wsh_of(countersigner_anchor_script(p_.cs.payment_point.0)) } else { p2wpkh_of(hash160_spec(ser33(p_.cs.payment_point.0))) }), value: Amount(to_c) }) } else { e };
-        if to_c > 0 { lemma_total_push(e, s1.last()); }
-        let s2 = if to_b > 0 { s1.push(TxOut { script_pubkey: ScriptBuf(p2wsh_of(revokeable_script(keys_.revocation_key.0, p_.delay, keys_.broadcaster_delayed_payment_key.0))), value: Amount(to_b) }) } else { s1 };
-        if to_b > 0 { lemma_total_push(s1, s2.last()); }
-        if p_.ct.zfc && !p_.ct.anchors { lemma_total_push(s2, out@.last()); assert(out@ =~= s2.push(out@.last())); }
-    }
+    final(out)@.to_multiset() =~= non_htlc_outputs(*keys, to_broadcaster_value_sat.0, to_countersignatory_value_sat.0, *channel_parameters, nondust_htlcs_value_sum_sat.0).to_multiset(),
+//@at body_start
+    broadcast use vstd::seq_lib::group_to_multiset_ensures;
+    proof { lemma_non_htlc_multiset(*keys, to_broadcaster_value_sat.0, to_countersignatory_value_sat.0, *channel_parameters, nondust_htlcs_value_sum_sat.0); }
 //@mutant counterparty_balance_output_dropped_at_exactly_one_sat
     if to_countersignatory_value_sat > Amount::ZERO {
 //@with
